@@ -140,6 +140,14 @@ static var thread_main(var args) {
   return NULL;
 }
 
+/* stop(thread) interrupts THAT thread (it finds itself in a ProgramInterruptedError handler) and no other: the caller goes on */
+static atomic_int st_ready, st_caught, st_quit, st_done;
+static var stoppable_main(var args) {
+  try { atomic_store(&st_ready, 1); for (int i = 0; i < 4000 && !atomic_load(&st_quit); i++) usleep(1000); }
+  catch (e in ProgramInterruptedError) { atomic_store(&st_caught, 1); }
+  atomic_store(&st_done, 1);
+  return NULL;
+}
 /* open finding: the child's TLS table is walked by the PARENT's collector */
 static atomic_int child_go, child_ready;
 static var park_main(var args) { atomic_store(&child_ready, 1); while (!atomic_load(&child_go)) sched_yield(); return NULL; }
@@ -158,6 +166,21 @@ int main(int argc, char** argv) {
   while (hc_next(f)) {
     alarm(120);
     if (hc_is(0, "reset")) { if (cur_exec > 0) { ev_begin("end"); ev_end(); } cur_exec++; ev_begin("reset"); ev_end(); continue; }
+    if (hc_is(0, "stopthread")) {
+      volatile int main_hit = 0; const char* x1 = "";
+      exception_signals();
+      atomic_store(&st_ready, 0); atomic_store(&st_caught, 0); atomic_store(&st_quit, 0); atomic_store(&st_done, 0);
+      var th = new(Thread, $(Function, stoppable_main));
+      call(th);
+      for (int w = 0; w < 4000 && !atomic_load(&st_ready); w++) usleep(500);
+      try { stop(th); for (int w = 0; w < 600 && !atomic_load(&st_done); w++) usleep(1000); }
+      catch (e in ProgramInterruptedError) { main_hit = 1; }
+      atomic_store(&st_quit, 1);
+      HC_TRY(join(th)); x1 = hc_exc;
+      hc_install(0);                                  /* (the harness's own handlers back in place) */
+      ev_begin("stopthread"); ev_int("caught", atomic_load(&st_caught)); ev_int("mainhit", main_hit); ev_int("done", atomic_load(&st_done)); ev_str("exc", x1); ev_end();
+      continue;
+    }
     if (hc_is(0, "run")) {
       int k = (int)hc_int(1); uint64_t seed = (uint64_t)hc_int(2); int rounds = (int)hc_int(3);
       if (k > MAXT) k = MAXT;
